@@ -9,6 +9,7 @@ All text fields are hex of the UTF-8 encoding (`-` = empty string).
   pat <pattern>            -> `re <regex text> <tok,tok|->`  or  `err:ValueError`   (and selects it)
   match <path>             -> `m none` | `m <g;g;…>`  (`N` = None, `v<hex>` = value)  of the selected regex
   spec <path>              -> `s none` | `s <g;g;…>`  Spec.bindings of the selected pattern
+  plain <path>             -> `p <clean 0|1> <plainMatches 0|1>`  the plain reading, selected pattern
   reg <id> <METHOD> <pattern> -> `ok` | `err:ValueError`
   route <METHOD> <path>    -> `r none` | `r <id> <k=v,…|->`  (sorted by key)
   dispatch <METHOD> <path> -> `d 404` | `d 200 <id> <k=v,…|->`   (rate limiter admits)
@@ -66,6 +67,10 @@ def stepLine (st : St) (line : String) : St × List String :=
         (st, [match Spec.bindings es path with
           | none => "s none"
           | some vs => "s " ++ showVals vs])
+      | _, _ => (st, ["bad-op"])
+  | ["plain", p] => match unhex p, st.cur with
+      | some path, some (es, _) =>
+        (st, [s!"p {if Spec.clean path then 1 else 0} {if Spec.plainMatches es path then 1 else 0}"])
       | _, _ => (st, ["bad-op"])
   | ["reg", rid, m, p] => match rid.toNat?, unhex p with
       | some i, some pat => match register st.table ⟨i, m, pat⟩ with
